@@ -88,7 +88,16 @@ TWriteRead ==
     /\ Ev.dval >= 12                           \* ... and is the same function
     /\ Matches(Ev.st, s') /\ TableOK(Ev.st)
 
+(* a table whose first or last rows were non-finite: its range is that of the rows kept, and between the dropped end and *)
+(* the first kept abscissa the side's mode applies, for values and derivatives                                            *)
+TEndNaN ==
+    /\ IsEvent("EndNaN")
+    /\ Ev.rangeKept
+    /\ Ev.rule = SideRule(Ev.mode)
+    /\ Ev.drule = DSideRule(Ev.mode)
+    /\ UNCHANGED vars
+
 TInit == TraceInitLib /\ Init
-TNext == TNewTable \/ TEval \/ TDeriv \/ TExtend \/ TSetModes \/ TEnable \/ TDisable \/ TWriteRead
+TNext == TNewTable \/ TEval \/ TDeriv \/ TExtend \/ TSetModes \/ TEnable \/ TDisable \/ TWriteRead \/ TEndNaN
 TSpec == TInit /\ [][TNext]_<<vars, tid, l>>
 =============================================================================
